@@ -181,6 +181,8 @@ class Check:
                 outcome = {'confirmed': None, 'detail': f'replay failed: {e!r}'}
         elif r.get('native'):
             outcome = {'confirmed': True, 'detail': r.get('detail', 'failing element found by native exhaustive evaluation')}
+        if (r.get('meta') or {}).get('native_fact'):
+            outcome = {'confirmed': True, 'detail': (r.get('meta') or {}).get('note') or 'structural fact of the executed code'}
         rep['replay'] = outcome
         rep['solver_output'] = r.get('solver_output', f"{r.get('backend')}: {r.get('status')}")
         json.dump(rep, open(path, 'w'), indent=1, default=str)
